@@ -173,7 +173,8 @@ class Sched:
                 a = chooser(r, self)
                 if a is None:
                     return "stopped"
-                self.decisions.append(([x.idx for x in r], a.idx, prev))
+                plabel = self.actors[prev].label if prev is not None else ""
+                self.decisions.append(([x.idx for x in r], a.idx, prev, plabel))
                 prev = a.idx
                 self.step(a)
             return "budget"
@@ -224,8 +225,8 @@ def random_chooser(rng, switch_p: float = 0.3):
     return choose
 
 
-def explore(run_one: Callable[[list[int]], tuple[list[tuple[list[int], int, int | None]], object]],
-            max_preemptions: int = 2, max_runs: int = 2000):
+def explore(run_one: Callable[[list[int]], tuple[list, object]],
+            max_preemptions: int = 2, max_runs: int = 2000, preempt_at: Callable[[str], bool] | None = None):
     """Depth-first enumeration of schedules with at most `max_preemptions` pre-emptions.
     run_one(prefix) executes the scenario from a fresh state following `prefix` then the non-pre-emptive
     default, and returns (decisions, outcome).  Yields (schedule, outcome)."""
@@ -241,12 +242,12 @@ def explore(run_one: Callable[[list[int]], tuple[list[tuple[list[int], int, int 
         # count pre-emptions along the executed schedule
         pre = 0
         pre_at = []
-        for (runnable, chosen, prev) in decisions:
+        for (runnable, chosen, prev, _lbl) in decisions:
             if prev is not None and prev in runnable and chosen != prev:
                 pre += 1
             pre_at.append(pre)
-        for k in range(len(prefix), len(decisions)):
-            runnable, chosen, prev = decisions[k]
+        for k in range(len(decisions) - 1, len(prefix) - 1, -1):
+            runnable, chosen, prev, plabel = decisions[k]
             base = pre_at[k - 1] if k > 0 else 0
             for alt in runnable:
                 if alt == chosen:
@@ -254,6 +255,8 @@ def explore(run_one: Callable[[list[int]], tuple[list[tuple[list[int], int, int 
                 cost = 1 if (prev is not None and prev in runnable and alt != prev) else 0
                 if base + cost > max_preemptions:
                     continue
+                if cost and preempt_at is not None and not preempt_at(plabel):
+                    continue          # only pre-empt inside the code under scrutiny
                 cand = full[:k] + [alt]
                 t = tuple(cand)
                 if t not in seen:
